@@ -29,7 +29,7 @@ LEVEL_NOTE = ('Cell values encode (model, aperture, wavelength); exact rational 
 RULE = ("cases: package configurations; executions: convolve_model_dir on both formats (+ memmap variants), every output row compared, then Fitter.fit on 4 variants x sources; "
         "non-trivial = distinct configurations with >= 2 models")
 ASSUMPTIONS = ["all SEDs of a package share the wavelength grid", "finite value alphabets"]
-REQUIRED_CLASSES = ['per-file-seds-stored-as-nuFnu', 'two-packages-under-one-relative-path', 'spectra-of-100-points-or-more', 'filters-overhanging-both-ends-of-the-spectra', 'more-than-128-models', 'permuted-table', 'filenames-disagree-with-model-names', 'listing-reversed', 'sed-wav-ascending', 'three-filters', 'single-model', 'eight-models',
+REQUIRED_CLASSES = ['two-filters-with-the-same-nominal-wavelength', 'per-file-seds-stored-as-nuFnu', 'two-packages-under-one-relative-path', 'spectra-of-100-points-or-more', 'filters-overhanging-both-ends-of-the-spectra', 'more-than-128-models', 'permuted-table', 'filenames-disagree-with-model-names', 'listing-reversed', 'sed-wav-ascending', 'three-filters', 'single-model', 'eight-models',
                     'five-apertures', 'formats-compared', 'fits-compared', 'remove-resolved', 'all-permutations-4', 'apertures-in-other-unit', 'seds-in-subdirs-or-gz', 'parameters-gz', 'seds-stored-in-Jy', 'seds-on-different-grids', 'single-real-aperture', 'error-column-in-other-unit', 'convolve-after-listing']
 TIMEOUT = {'quick': 600, 'thorough': 3000}
 
@@ -225,11 +225,13 @@ def run_case(ctx, case, rec, d):
     # FD and FE reach beyond the long- and the short-wavelength end of the spectra: only the overlap counts
     fdefs = [('FA', 3.0, np.array([nu_asc[q(1)] * 0.9, nu_asc[q(2)], nu_asc[q(3)] * 1.1, nu_asc[q(4)]])[::-1], np.array([0.0, 1.0, 0.7, 0.0])),
              ('FB', 1.3, np.array([nu_asc[q(4)] * 0.8, nu_asc[q(5)], nu_asc[q(6)]]), np.array([0.2, 1.0, 0.5])),
-             ('FC', 12.0, np.linspace(nu_asc[q(0)], nu_asc[q(2)], 6), np.array([0.1, 0.5, 1.0, 0.8, 0.4, 0.1])),
+             ('FC', 3.0, np.linspace(nu_asc[q(0)], nu_asc[q(2)], 6), np.array([0.1, 0.5, 1.0, 0.8, 0.4, 0.1])),          # (FC is given the same nominal wavelength as FA: a label, not a key)
              ('FD', 25.0, np.array([nu_asc[0] * 0.45, nu_asc[0] * 0.8, nu_asc[q(1)], nu_asc[q(2)] * 1.05]), np.array([0.3, 1.0, 0.8, 0.1])),
              ('F.E1', 1.0, np.array([nu_asc[q(5)] * 0.97, nu_asc[-1] * 1.02, nu_asc[-1] * 1.4]), np.array([0.1, 1.0, 0.6]))][:case['nfilt']]          # (a filter name may contain a dot)
     if case['nfilt'] >= 5:
         rec.cls('filters-overhanging-both-ends-of-the-spectra')
+    if case['nfilt'] >= 3:
+        rec.cls('two-filters-with-the-same-nominal-wavelength')
     filters = [_mkfilter(x, y, nm, cw) for nm, cw, x, y in fdefs]
     for f in filters:
         f.normalize()
